@@ -143,7 +143,7 @@ Definition loop_ok (m : meth) : bool :=
   negb (m_without_invalid m) && negb (m_locations m) && deco_ok (m_deco m) &&
   match m_alts m with [a] => galt_ok call0_ok a && negb (a_has_cut a) | _ => false end.
 Definition plain_ok (m : meth) : bool :=
-  negb (m_without_invalid m) && negb (m_locations m) && deco_ok (m_deco m) && forallb (galt_ok call1_ok) (m_alts m).
+  negb (m_without_invalid m) && negb (m_locations m) && deco_ok (m_deco m) && forallb (galt_ok2 call1_ok) (m_alts m).
 Definition is_some {A} (o : option A) : bool := match o with Some _ => true | None => false end.
 Definition meth_ok1 (m : meth) : bool :=
   if m_loop m then (if gshape m then is_some (gloop_parts m) else loop_ok m)
@@ -154,10 +154,16 @@ Definition dec_meth1 (m : meth) : rule :=
   {| rname := m_name m; rtype := None;
      rrhs := match gather_parts m with
              | Some (s, e) => Rhs 0 [Alt [NItem 0 None None (Gather 0 (dec_call M s) (dec_call M e))] None]
-             | None => Rhs 0 (map (gdec_alt dec_call1) (m_alts m))
+             | None => Rhs 0 (map (gdec_alt2 dec_call1) (m_alts m))
              end;
      rmemo := false |}.
 Definition dec_module1 : list rule := map dec_meth1 (filter (fun m => negb (m_loop m)) (i_meths M)).
+(* the alternatives of plain methods: the ones whose explicit actions the hypotheses below speak about *)
+Definition plain_alt (a : ialt) : Prop :=
+  exists m, In m (i_meths M) /\ m_loop m = false /\ gather_parts m = None /\ In a (m_alts m).
+(* no plain method has an alternative with an explicit action (then those hypotheses are void) *)
+Definition no_explicit : bool :=
+  forallb (fun m => m_loop m || is_some (gather_parts m) || forallb (fun a => negb (a_explicit a)) (m_alts m)) (i_meths M).
 End Dec1.
 
 Section Sem1.
@@ -190,6 +196,13 @@ Hypothesis Haeval : forall xs e vs, nodup_s xs = true -> Forall2 (fun x v => env
 (* ... and the action of a gather helper *)
 Hypothesis Hgact : forall e v vs, env_get e "elem" = Some v -> env_get e "seq" = Some (VList vs) ->
   aeval "[elem] + seq" e = Some (VList (v :: vs)).
+(* explicit actions: the reference semantics evaluates the action text in the environment of the alternative's named
+   items; earlier alternatives' leftovers do not matter once the alternative has bound its own names; no falsy value *)
+Hypothesis HactP : forall alt ac vals env s e, alt_action alt = Some ac -> aevalP alt vals env s e = aeval (atext ac) env.
+Hypothesis Hnmi : forall a k, item_name a k = match nth_error (alt_items a) k with Some n => ni_name n | None => None end.
+Hypothesis Hstale : forall a, plain_alt M a -> a_explicit a = true -> forall e1 e0,
+  (forall x, In x (conj_vars (a_conjs a)) -> env_get e1 x <> None) -> aeval (a_action a) (e1 ++ e0)%list = aeval (a_action a) e1.
+Hypothesis Htruthy : forall a, plain_alt M a -> a_explicit a = true -> forall e v, aeval (a_action a) e = Some v -> truthy v = true.
 Hypothesis Hlit : forall s t, In t toks -> is_kind2 s = false -> expect_test K ex td s t = String.eqb (tstr t) s.
 Hypothesis Hkind : forall s t, In t toks -> is_kind2 s = true -> expect_test K ex td s t = kind2_test K M s t.
 
@@ -847,8 +860,10 @@ Proof.
       apply negb_true_iff in Hwi. apply negb_true_iff in Hl.
       assert (Hb : run_body K toks false false M aeval ex td (RUN f) f m st = (Ok v, st1)) by (destruct (m_deco m); [exact H|discriminate Hd|exact H]).
       unfold run_body in Hb. rewrite Hwi, Hl, El in Hb.
-      destruct (galts_agree K toks M aeval ex td aevalP item_name forced_msg rs Haeval (RUN f) (call1_ok M) (dec_call1 M)
-                  (call1_sem (RUN f) HIH) (carries1) (cut1) m (pos st) (invalid st) Hwi (m_alts m) [] st v st1 Hal eq_refl eq_refl Hb) as (res & Hpa & Hr).
+      assert (HOK : Forall (plain_alt M) (m_alts m)).
+      { apply Forall_forall. intros a Ha. exists m. split; [exact (find_meth_in1 n m Em)|]. split; [exact El|]. split; [exact Eparts|exact Ha]. }
+      destruct (galts_agree2 K toks M aeval ex td aevalP item_name forced_msg rs Haeval (RUN f) (call1_ok M) (dec_call1 M)
+                  (call1_sem (RUN f) HIH) (carries1) (cut1) (plain_alt M) HactP Hnmi Hstale Htruthy m (pos st) (invalid st) Hwi (m_alts m) [] st v st1 Hal HOK eq_refl eq_refl Hb) as (res & Hpa & Hr).
       exists res. split.
       * eapply P_rule; [exact (find_rule_dec1 n m Em El)|]. cbn [rrhs dec_meth1 rhs_alts]. rewrite Eparts. cbn [rhs_alts]. exact Hpa.
       * unfold agrees. rewrite Hp. destruct Hr as [[A B]|[A [B C]]]; [left; auto|right; auto].
@@ -917,8 +932,8 @@ Proof.
       apply negb_true_iff in Hwi. apply negb_true_iff in Hl.
       assert (Hb : run_body K toks false false M aeval ex td (RUN f) f m st = (Raise (XSyntaxError ea t), st')) by (destruct (m_deco m); [exact H|discriminate Hd|exact H]).
       unfold run_body in Hb. rewrite Hwi, Hl, El in Hb.
-      destruct (galts_raises K toks M aeval ex td aevalP item_name forced_msg rs (RUN f) (call1_ok M) (dec_call1 M)
-                  (call1_sem (RUN f) HIH) (carries1) (cut1) (call1_raises (RUN f) HIH HIR) m (pos st) (invalid st) Hwi (m_alts m) [] st ea t st' Hal eq_refl eq_refl Hb) as (msg & q & Hpa).
+      destruct (galts_raises2 K toks M aeval ex td aevalP item_name forced_msg rs (RUN f) (call1_ok M) (dec_call1 M)
+                  (call1_sem (RUN f) HIH) (carries1) (cut1) (call1_raises (RUN f) HIH HIR) Hnmi m (pos st) (invalid st) Hwi (m_alts m) [] st ea t st' Hal eq_refl eq_refl Hb) as (msg & q & Hpa).
       exists msg, q.
       eapply P_rule; [exact (find_rule_dec1 n m Em El)|]. cbn [rrhs dec_meth1 rhs_alts]. rewrite Eparts. cbn [rhs_alts]. exact Hpa.
 Qed.
